@@ -113,6 +113,10 @@ func C02_Curated() {
 		"var a = 1001\ndef t { def u { def w { f = a\n a = 1002 } } }\nprint a\n", // toplevel var from depth 3
 		"def t { var a = 1001 }\nprint a\n",                              // block variable gone after the block
 		"def t { var a = 1001\n def u { var b = a } \n c = b }\n",        // inner variable gone: b is a field lookup
+		"def a { x = 1001\n def b { x = 1002\n def c { y = x } } }\n",   // nearest enclosing block wins (depth 3)
+		"def a { x = 1001\n def b { z = 1002\n def c { y = x\n w = z } } }\n",
+		"def a { x = 1001\n def b { x = 1002\n def c { x = 1003\n def d { y = x } } } }\n",
+		"def a { x = 1001\n def b { def c { x = 1002 }\n y = x } }\n",  // a sibling's child does not count
 	}
 	src := progs[verif.Choice("prog", len(progs))]
 	values := map[string]any{}
@@ -126,5 +130,31 @@ func C02_Curated() {
 	verif.Observe("out", r.Real.Out)
 	verif.Observe("err", errClass(r.Real.Err))
 	r.assertAgree("curated")
+	verif.Reach("compared")
+}
+
+// C02_Many: CONCRETE INSTANCES - a block (or the toplevel) with 239..300
+// variables, so that slot numbers and the POPN count cross the one-byte varint
+// range; variables declared after the block must still resolve.
+func C02_Many() {
+	n := []int{239, 240, 241, 255, 256, 300}[verif.Choice("n", 6)]
+	inBlock := verif.Choice("where", 2) == 1
+	src := ""
+	if inBlock {
+		src += "var before = 1\ndef t {\n"
+	}
+	for i := 0; i < n; i++ {
+		src += "var v" + itoa(i) + " = " + itoa(i+2) + "\n"
+	}
+	src += "print v" + itoa(n-1) + " + v0\n"
+	if inBlock {
+		src += "f = v" + itoa(n-1) + "\n}\nvar w = 3\nprint w + before\n"
+	} else {
+		src += "def t {\n var inner = v" + itoa(n-1) + "\n f = inner\n}\nvar w = 3\nprint w\n"
+	}
+	r := runBoth(src, nil)
+	verif.Observe("out", r.Real.Out)
+	verif.Observe("err", errClass(r.Real.Err))
+	r.assertAgree("many")
 	verif.Reach("compared")
 }
